@@ -158,6 +158,12 @@ def _run_iteration(repo, worker, env, facts, is_first, is_last, last_exact=False
         if isinstance(s, ast.If) and any(isinstance(x, ast.Break) for x in ast.walk(s)):
             snap["break_test"] = s.test
             continue
+        if isinstance(s, ast.If) and not s.orelse and len(s.body) == 1 and isinstance(s.body[0], ast.Continue) and isinstance(lp.body[-1], ast.Break) \
+                and isinstance(s.test, ast.Compare) and len(s.test.ops) == 1 and type(s.test.ops[0]) in (ast.Lt, ast.LtE, ast.Gt, ast.GtE):
+            # guard clause: `if <go on>: continue` ... `break` at the end of the body  ==  `if not <go on>: ... break`
+            flip = {ast.Lt: ast.GtE, ast.LtE: ast.Gt, ast.Gt: ast.LtE, ast.GtE: ast.Lt}[type(s.test.ops[0])]
+            snap["break_test"] = ast.copy_location(ast.Compare(left=s.test.left, ops=[flip()], comparators=s.test.comparators), s.test)
+            continue
         if isinstance(s, ast.If) and any(isinstance(x, (ast.Assign, ast.AugAssign)) and "ind2save" in src(x.targets[0] if isinstance(x, ast.Assign) else x.target)
                                          for y in s.body + s.orelse for x in ast.walk(y)):
             # the branch decides the kept range: it must be decidable in this case, otherwise the rule cannot speak
